@@ -570,10 +570,30 @@ func (g *Gen) inputLiteral(in *TInfo) (string, bool) {
 	for _, f := range in.Fields {
 		typ := f.Type
 		if !strings.HasSuffix(typ, "!") {
+			// optional: mostly left out; a nested input object is sometimes given
+			// as an empty-ish literal (validation fills its defaults in)
+			b := strings.Trim(typ, "[]!")
+			if nested := g.St.ByName[b]; nested != nil && nested.Kind == "input" && nested != in && !strings.Contains(typ, "[") && g.T.Bool(1, 2) {
+				if nl, ok := g.inputLiteral(nested); ok {
+					parts = append(parts, f.Name+": "+nl)
+				}
+			}
 			continue
 		}
 		base := strings.Trim(typ, "[]!")
 		var v string
+		if nested := g.St.ByName[base]; nested != nil && nested.Kind == "input" && nested != in {
+			// a nested input object, given as a literal of its own
+			if nl, ok := g.inputLiteral(nested); ok {
+				v = nl
+				for i := 0; i < strings.Count(typ, "["); i++ {
+					v = "[" + v + "]"
+				}
+				parts = append(parts, f.Name+": "+v)
+				continue
+			}
+			return "", false
+		}
 		switch base {
 		case "Int":
 			v = "1"
